@@ -147,6 +147,152 @@ pub mod spec {
         }
     }
 }
+
+/// Sparse from-scratch reference for MMRs with a HUGE leaf count (used by the `bhist` ops of C05 / C11): a few
+/// "materialised" leafs are known by value, every maximal aligned block without a materialised leaf is an opaque
+/// digest.  `val(l, j)` = root of the aligned block `j` of `2^l` leafs; peaks and authentication paths are read off
+/// by position (`spec::peak_pos`), sharing no code with the crate's MMR index arithmetic.  The set of materialised
+/// leafs only grows by appends, so an opaque block never gets a materialised leaf later.
+pub mod sparse {
+    use super::spec::{locate, peak_pos};
+    use std::collections::{BTreeMap, HashMap};
+    use twenty_first::prelude::*;
+
+    pub struct Sparse {
+        pub n: u64,
+        pub leafs: BTreeMap<u64, Digest>,
+        pub opaque: HashMap<(u32, u64), Digest>,
+        /// generator side: state for fresh opaque digests; runner side: `None` (an unknown block counts as `missing`)
+        pub rnd: Option<u64>,
+        pub missing: u32,
+    }
+    impl Sparse {
+        pub fn has_leaf(&self, l: u32, j: u64) -> bool {
+            let lo = (j as u128) << l;
+            let hi = lo + (1u128 << l) - 1;
+            if lo > u64::MAX as u128 {
+                return false;
+            }
+            let hi = hi.min(u64::MAX as u128) as u64;
+            self.leafs.range(lo as u64..=hi).next().is_some()
+        }
+        pub fn val(&mut self, l: u32, j: u64) -> Digest {
+            if !self.has_leaf(l, j) {
+                if let Some(d) = self.opaque.get(&(l, j)) {
+                    return *d;
+                }
+                match self.rnd {
+                    Some(r) => {
+                        let mut g = crate::util::Rng(r);
+                        let d = g.digest_u();
+                        self.rnd = Some(g.0);
+                        self.opaque.insert((l, j), d);
+                        d
+                    }
+                    None => {
+                        self.missing += 1;
+                        Digest::default()
+                    }
+                }
+            } else if l == 0 {
+                self.leafs[&j]
+            } else {
+                let a = self.val(l - 1, 2 * j);
+                let b = self.val(l - 1, 2 * j + 1);
+                Tip5::hash_pair(a, b)
+            }
+        }
+        pub fn peaks(&mut self) -> Vec<Digest> {
+            peak_pos(self.n).into_iter().map(|(h, s)| self.val(h, s >> h)).collect()
+        }
+        /// authentication path of leaf `i < n`, lowest sibling first
+        pub fn path(&mut self, i: u64) -> Vec<Digest> {
+            let (h, _) = locate(self.n, i).unwrap();
+            (0..h).map(|l| self.val(l, (i >> l) ^ 1)).collect()
+        }
+        pub fn append(&mut self, d: Digest) {
+            self.leafs.insert(self.n, d);
+            self.n += 1;
+        }
+        /// generator side: `idxs` materialised with the given leafs, everything else opaque and random
+        pub fn random(seed: u64, n: u64, idxs: &[(u64, Digest)]) -> Sparse {
+            Sparse { n, leafs: idxs.iter().copied().filter(|x| x.0 < n).collect(), opaque: HashMap::new(), rnd: Some(seed), missing: 0 }
+        }
+        /// runner side: rebuilt from the op line alone -- the peaks of the accumulator and `(index, leaf, path)` of every
+        /// materialised leaf; `None` if these are not consistent with each other
+        pub fn from_known(n: u64, peaks: &[Digest], known: &[(u64, Digest, Vec<Digest>)]) -> Option<Sparse> {
+            if peaks.len() != n.count_ones() as usize {
+                return None;
+            }
+            let mut sp = Sparse { n, leafs: BTreeMap::new(), opaque: HashMap::new(), rnd: None, missing: 0 };
+            for (i, d, _) in known {
+                if *i >= n || sp.leafs.insert(*i, *d).is_some() {
+                    return None;
+                }
+            }
+            for (p, (h, s)) in peaks.iter().zip(peak_pos(n)) {
+                if !sp.has_leaf(h, s >> h) {
+                    sp.opaque.insert((h, s >> h), *p);
+                }
+            }
+            for (i, _, path) in known {
+                let (h, _) = locate(n, *i)?;
+                if path.len() != h as usize {
+                    return None;
+                }
+                for l in 0..h {
+                    let j = (i >> l) ^ 1;
+                    if !sp.has_leaf(l, j) {
+                        if let Some(o) = sp.opaque.insert((l, j), path[l as usize]) {
+                            if o != path[l as usize] {
+                                return None;
+                            }
+                        }
+                    }
+                }
+            }
+            if sp.peaks() != peaks || sp.missing > 0 {
+                return None;
+            }
+            for (i, _, path) in known {
+                if sp.path(*i) != *path {
+                    return None;
+                }
+            }
+            if sp.missing > 0 {
+                return None;
+            }
+            Some(sp)
+        }
+    }
+
+    /// indices worth tracking in an MMR with `n` leafs: last / first leaf, first and last leaf of peaks, sibling and
+    /// cousin pairs, random ones
+    pub fn pick_tracked(rng: &mut crate::util::Rng, n: u64, k: usize) -> Vec<u64> {
+        let pp = peak_pos(n);
+        let mut v: Vec<u64> = vec![];
+        let mut tries = 0;
+        while v.len() < k && tries < 100 && n > 0 {
+            tries += 1;
+            let c = match rng.below(8) {
+                0 => n - 1,
+                1 => 0,
+                2 | 3 => {
+                    let (h, s) = *rng.pick(&pp);
+                    if rng.coin(1, 2) { s } else { s + ((1u64 << h) - 1) }
+                }
+                4 if !v.is_empty() => *rng.pick(&v) ^ 1,
+                5 if !v.is_empty() => *rng.pick(&v) ^ (1 << rng.below(6)),
+                6 if !v.is_empty() => *rng.pick(&v) ^ (1 << rng.below(62)),
+                _ => rng.below(n),
+            };
+            if c < n && !v.contains(&c) {
+                v.push(c);
+            }
+        }
+        v
+    }
+}
 use spec::*;
 
 const KINDS: [&str; 14] = [
